@@ -3,6 +3,7 @@
 package props
 
 import (
+	"strings"
 	"errors"
 	"fmt"
 	"time"
@@ -138,6 +139,14 @@ func runC03(r *vk.Run) {
 
 	r.Phase("roundtrip", r.N(400, 200000), func(c *vk.Case) {
 		frames := genFrames(c.Rng, 12)
+		if len(frames) > 0 && c.Rng.Chance(1, 8) {
+			// a long record: the daemon copies output through a 16 KiB buffer, so chunks of exactly that
+			// size (frame = timestamp + space + 16384 bytes) and longer bodies are ordinary
+			n := vk.Pick(c.Rng, []int{16352, 16353, 16354, 16384, 16385, 20000, 65535, 65536, 70001})
+			pat := vk.Pick(c.Rng, []string{"x", "ab ", "\xff\x00", "long line "})
+			frames[c.Rng.Intn(len(frames))].Body = strings.Repeat(pat, n/len(pat)+1)[:n]
+			c.Count("long_records", 1)
+		}
 		data := EncodeFrames(frames)
 		for pi, plan := range plans {
 			plan.Seed += uint64(c.Idx)
@@ -176,6 +185,8 @@ func runC03(r *vk.Run) {
 			c.Sample("roundtrip", map[string]any{"frames": frames})
 		}
 	})
+
+	r.Require("long_records", 20)
 
 	r.Phase("truncate", r.N(150, 60000), func(c *vk.Case) {
 		frames := genFrames(c.Rng, 8)
